@@ -300,6 +300,7 @@ def run(tier, seed):
     os.makedirs(work)
     os.chmod(work, 0o777)
     fired_kinds = {}
+    selfcheck = {"scenarios_run_twice": 0, "differing": 0}
     outcomes = {}
     trivial = 0
     scen_total = 0
@@ -325,6 +326,15 @@ def run(tier, seed):
             plans += pair_plans(prng, 60 if quick else 2500)
             scen = [{"req": req, "plan": p, "tag": f"{sname}-{i}"} for i, p in enumerate(plans)]
             res = run_children(scen, work)
+            # determinism self-check: a slice of the scenarios again, sequentially
+            again = run_children([dict(s, tag=s["tag"] + "-again") for s in scen[:12]], work, workers=1)
+            same = lambda a, b: (a[0].get("kind"), a[0].get("fp"), a[0].get("err"), a[1]) == \
+                                (b[0].get("kind"), b[0].get("fp"), b[0].get("err"), b[1])
+            nbad = sum(1 for a, b in zip(res, again) if not same(a, b))
+            selfcheck["scenarios_run_twice"] += len(again)
+            selfcheck["differing"] += nbad
+            if nbad:
+                out.harness_errors.append(f"determinism self-check: {nbad} fault scenarios of {sname} differ when run again")
             log(f"[C12] {sname}: {len(scen)} fault scenarios")
             for p, (obs, fired) in zip(plans, res):
                 scen_total += 1
@@ -457,6 +467,7 @@ def run(tier, seed):
         "outcomes": outcomes,
         "max_step_budget_ratio_permille": max_steps_ratio,
         "configuration_sweep": config_stats,
+        "determinism_selfcheck": selfcheck,
         "runs_per_hour": int(scen_total / hours),
         "simulated_time": "no clock; liveness is measured in loop iterations against item-count budgets",
         "real_vs_stub": {"bindgen": "real", "libclang": "real", "libc file syscalls on the input path": "real, "
